@@ -178,7 +178,70 @@ fn cli_refusals_in_every_command(ctx: &Ctx) {
     }
 }
 
+/// Long passwords through the real binary (the environment carries up to 128 KiB per string): the key opens
+/// under exactly the bytes it was locked under; a password that differs only in its LAST byte, or that is a
+/// proper prefix of it, does not open it; and what the tool locks opens under the reference.
+fn cli_long_passwords(ctx: &Ctx) {
+    let mut rng = Rng::fork(ctx.seed, "C15-cli-long");
+    let wd = WorkDir::new("c15l");
+    let lens: Vec<usize> = ctx.tier.pick(vec![65, 257, 1023, 1024, 1025, 4097, 70_000], vec![63, 64, 65, 127, 128, 129, 255, 256, 257, 511, 512, 513, 1023, 1024, 1025, 2047, 2048, 2049, 4095, 4096, 4097, 8193, 16385, 32769, 65535, 65536, 65537, 100_000, 131_000]);
+    for (i, n) in lens.iter().enumerate() {
+        let w: String = (0..*n).map(|k| (b'a' + ((k * 7 + i + k / 26) % 26) as u8) as char).collect();
+        let key = rng.arr32();
+        let locked = refspec::lock_sk(&key, w.as_bytes(), &rng.arr32());
+        let want = format!("PublicKey = {}", refspec::encode_pk(&refspec::pubkey_of(&key)));
+        let o = Cmd::new(&wd.path, &["key", "extract-pub", &locked, "--env-pass"]).pass(&w).run();
+        ctx.eval();
+        if o.exit == Exit::Timeout {
+            ctx.inconclusive("C15 cli: timeout");
+            continue;
+        }
+        if !(o.exit == Exit::Code(0) && o.stdout_s().trim() == want) {
+            ctx.violation("C15:cli:conforming-key-does-not-unlock-with-its-exact-password:long-password", json!({"password_len": n, "exit": o.exit.describe(), "stderr": o.stderr_s()}));
+            continue;
+        }
+        let mut last_changed = w.clone().into_bytes();
+        let l = last_changed.len();
+        last_changed[l - 1] = if last_changed[l - 1] == b'z' { b'y' } else { b'z' };
+        let variants: Vec<(&str, String)> = vec![
+            ("last byte changed", String::from_utf8(last_changed).unwrap()),
+            ("last byte dropped", w[..n - 1].to_string()),
+            ("cut to the previous power of two", w[..(n.next_power_of_two() / 2).min(n - 1)].to_string()),
+            ("one byte appended", format!("{}a", w)),
+        ];
+        let mut ok = true;
+        for (what, v) in &variants {
+            if refspec::hmac_norm(v.as_bytes()) == refspec::hmac_norm(w.as_bytes()) {
+                continue;
+            }
+            let o = Cmd::new(&wd.path, &["key", "extract-pub", &locked, "--env-pass"]).pass(v).run();
+            ctx.eval();
+            if !(o.exit == Exit::Code(1) && o.stdout.is_empty()) {
+                ctx.violation("C15:cli:different-password-unlocks:long-password", json!({"locked_under_len": n, "offered": what, "offered_len": v.len(), "exit": o.exit.describe(), "stdout": o.stdout_s()}));
+                ok = false;
+                break;
+            }
+        }
+        if !ok {
+            continue;
+        }
+        // tool locks under the long password -> the reference opens it under exactly that password
+        let o = Cmd::new(&wd.path, &["key", "change-pass", &locked, "--env-pass"]).pass(&w).env("KESTREL_NEW_PASSWORD", &format!("{}!", w)).run();
+        ctx.eval();
+        let out = o.stdout_s();
+        let newl = out.lines().find_map(|l| l.trim().strip_prefix("PrivateKey = ")).unwrap_or("").trim().to_string();
+        if o.exit == Exit::Code(0) && refspec::unlock_sk(&newl, format!("{}!", w).as_bytes()) == Ok(key) && refspec::unlock_sk(&newl, w.as_bytes()).is_err() {
+            ctx.seen("cli: long password: exact bytes open, last-byte and prefix variants do not, tool-locked key opens under the reference");
+            ctx.distinct(&format!("longpw|{}", n));
+        } else {
+            ctx.violation("C15:cli:key-locked-by-the-tool-under-a-long-password-does-not-conform", json!({"password_len": n + 1, "exit": o.exit.describe(), "stderr": o.stderr_s()}));
+        }
+    }
+}
+
 pub fn cli_lanes(ctx: &Ctx) {
+    cli_long_passwords(ctx);
+    ctx.require("cli: long password", 5);
     cli_layer(ctx);
     cli_password_edges(ctx);
     cli_refusals_in_every_command(ctx);
